@@ -602,10 +602,11 @@ func truncateText(s []byte, maxLen int) []byte {
 	if len(s) <= maxLen {
 		return s
 	}
-	maxLen -= len(longTextPlaceholder)
-	if maxLen < 0 {
+	if maxLen < len(longTextPlaceholder) {
 		// The limit can't even hold the placeholder.
 		maxLen = 0
+	} else {
+		maxLen -= len(longTextPlaceholder)
 	}
 	leftLen := maxLen / 2
 	rightLen := (maxLen % 2) + leftLen
